@@ -375,3 +375,101 @@ def pad_footer(data, target):
         if n < 0:
             return None
     return None
+
+
+# ------------------------------------------------------------------ nested-schema files and special chunk placements (tools/pq.py)
+
+class RawFile:
+    """a file given by its bytes plus the ground truth the independent writer kept:
+    truth[rg][col] = (defs, reps, values), levels[col] = (max_def, max_rep), names[col] = dotted path"""
+
+    def __init__(self, label, data, truth, levels, names, model_fs=None):
+        self.label, self.data, self.truth, self.levels, self.names = label, data, truth, levels, names
+        self._impl = "x:" + data.hex()
+        self.model_fs = model_fs          # a flat FileSpec describing the same content for the extracted model, or None
+        self.known = None
+
+    def impl_text(self):
+        return self._impl
+
+    def text(self):
+        return self.model_fs.text() if self.model_fs else "raw:" + self.label
+
+    def has_repeated(self):
+        return any(mr > 0 for _, mr in self.levels)
+
+
+def expected_oneshot(defs, reps, vals, max_def, max_rep, op="r"):
+    """what the driver prints for one read_batch that takes the whole chunk"""
+    n = len(defs)
+    if n == 0:
+        return f"{op}0"
+    if max_def > 1 or max_rep > 0:
+        return (f"{op}{n}:" + ".".join(map(str, defs)) + "/" + ".".join(map(str, reps)) + "/" +
+                (".".join(tok(v) for v in vals) if vals else "-"))
+    rows, k = [], 0
+    for d in defs:
+        if max_def == 0 or d == max_def:
+            rows.append(tok(vals[k])); k += 1
+        else:
+            rows.append("N")
+    return f"{op}{n}:" + ".".join(rows)
+
+
+def nested_files(rng, thorough=False):
+    """REQUIRED leaves inside OPTIONAL / REPEATED groups and a 3-level LIST, fixed width, PLAIN, uncompressed (what the
+    zero-copy eligibility rule looks at) - plus the same compressed / dictionary encoded; 1..3 pages per chunk"""
+    import sys, struct
+    from pathlib import Path
+    sys.path.insert(0, str(Path(__file__).resolve().parent.parent / "tools"))
+    import pq
+    S = pq.SchemaNode
+    i32 = lambda v: struct.pack("<i", v)
+    i64 = lambda v: struct.pack("<q", v)
+    f64 = lambda v: struct.pack("<d", v)
+    schemas = []
+    # A: REQUIRED leaves under an OPTIONAL group, next to a top-level REQUIRED column
+    rootA = S("schema", "REQUIRED", None, 0, [
+        S("g", "OPTIONAL", None, 0, [S("x", "REQUIRED", "INT32"), S("y", "REQUIRED", "DOUBLE")]),
+        S("z", "REQUIRED", "INT64")])
+    recsA = [{"g": ({"x": i32(10 + i), "y": f64(i + 0.5)} if i % 3 != 1 else None), "z": i64(100 + i)} for i in range(7)]
+    schemas.append(("opt-group", rootA, recsA))
+    # B: REQUIRED leaves under a REPEATED group
+    rootB = S("schema", "REQUIRED", None, 0, [
+        S("r", "REPEATED", None, 0, [S("a", "REQUIRED", "INT32"), S("b", "REQUIRED", "FIXED_LEN_BYTE_ARRAY", 3)])])
+    lens = [2, 0, 1, 3, 0, 1]
+    k = 0
+    recsB = []
+    for n in lens:
+        recsB.append({"r": [{"a": i32(k + j), "b": bytes([k + j, 7, 9])} for j in range(n)]})
+        k += n
+    schemas.append(("rep-group", rootB, recsB))
+    # C: 3-level LIST (OPTIONAL group / REPEATED group / REQUIRED element) next to an id column
+    rootC = S("schema", "REQUIRED", None, 0, [
+        S("id", "REQUIRED", "INT32"),
+        S("l", "OPTIONAL", None, 0, [S("list", "REPEATED", None, 0, [S("element", "REQUIRED", "INT64")])], converted_type=3)])
+    recsC = []
+    for i, n in enumerate([2, None, 0, 3, 1]):
+        recsC.append({"id": i32(i), "l": (None if n is None else {"list": [{"element": i64(1000 * i + j)} for j in range(n)]})})
+    schemas.append(("list3", rootC, recsC))
+    variants = [("UNCOMPRESSED", "PLAIN")] + ([("SNAPPY", "PLAIN"), ("UNCOMPRESSED", "RLE_DICTIONARY")] if thorough else [("SNAPPY", "PLAIN")])
+    out = []
+    for label, root, recs in schemas:
+        leaves = pq.spec_leaves(root)
+        for codec, enc in variants:
+            for maxpages in (1, 3):
+                cols = []
+                for lf in leaves:
+                    defs, reps, vals = pq.shred(lf.nodes, recs)
+                    sizes = pq.split_pages(rng, reps, len(defs), max_pages=maxpages, at_records=True)
+                    pages = [pq.PageSpec(n, enc, crc=True) for n in sizes]
+                    cols.append(pq.ColumnSpec(defs, reps, vals, pages, codec=codec,
+                                              dictionary="auto" if enc != "PLAIN" else None))
+                spec = pq.FileSpec(root, [pq.RowGroupSpec(len(recs), cols)])
+                try:
+                    data = pq.write_file(spec, rng)
+                except Exception:
+                    continue
+                out.append(RawFile(f"{label}-{codec}-{enc}-p{maxpages}", data, spec.truth(),
+                                   [(lf.max_def, lf.max_rep) for lf in leaves], [".".join(lf.path) for lf in leaves]))
+    return out
